@@ -107,6 +107,13 @@ def build_spec(rng, backend, noline_opt, no_reject=False, risky=False):
         put(kk, "    " + st)
     emit("}")
     emit("}")
+    # indented code lines in section 1 before (and between) the %{ %} blocks: each region gets its own #line
+    if rng.chance(50):
+        for q in range(rng.rng(1, 2)):
+            emit("    static int sect1_early_%d;" % q)
+        if rng.chance(40):
+            emit("LETTER [a-z]")
+            emit("    static int sect1_early_x;")
     # %{ %} block in section 1
     emit("%{")
     emit("static void sect1_block(void) {")
@@ -135,8 +142,32 @@ def build_spec(rng, backend, noline_opt, no_reject=False, risky=False):
     emit("")
     # rules: a..h; each input letter triggers one rule
     letters = "abcdefgh"
+
+    def spell(ch):
+        """(lines before the last one, last line) of a pattern that matches exactly the letter: the line counter of flex's own
+        scanner also runs over patterns - extended-syntax groups may contain blanks, comments and newlines"""
+        form = rng.pick(["plain", "plain", "quoted", "class", "group", "x1", "x2", "x3", "xml", "xcomment"])
+        if form == "plain":
+            return [], ch
+        if form == "quoted":
+            return [], '"%s"' % ch
+        if form == "class":
+            return [], "[%s]" % ch
+        if form == "group":
+            return [], "(%s)" % ch
+        if form == "x1":
+            return [], "(?x: %s )" % ch
+        if form == "x2":
+            return [], "(?x: %s | %s )" % (ch, ch)
+        if form == "x3":
+            return [], "(?x:%s |%s)" % (ch, ch)
+        if form == "xcomment":
+            return [], "(?x: %s /* %s | %s */ )" % (ch, ch, ch)
+        return ["(?x: %s" % ch] + ["   | %s" % ch for _ in range(rng.rng(1, 2))], "  )"
+
     for ch in letters:
         style = rng.pick(["oneline", "oneline", "multiline", "percent", "nobrace"])
+        pre, ch_pat = spell(ch)
         for _ in range(rng.rng(0, 2)):
             emit("")
         if rng.chance(25):
@@ -149,12 +180,25 @@ def build_spec(rng, backend, noline_opt, no_reject=False, risky=False):
             barred = False
         if style == "oneline":
             kk, st = rec_stmt("action-oneline" + ("-after-bar" if barred else ""))
-            put(kk, "%s\t{ %s }" % (ch, st))
+            for l in pre:
+                emit(l)
+            put(kk, "%s\t{ %s }" % (ch_pat, st))
         elif style == "nobrace":
             kk, st = rec_stmt("action-nobrace" + ("-after-bar" if barred else ""))
-            put(kk, "%s\t%s" % (ch, st))
+            for l in pre:
+                emit(l)
+            put(kk, "%s\t%s" % (ch_pat, st))
         elif style == "multiline":
-            emit("%s\t{" % ch)
+            for l in pre:
+                emit(l)
+            emit("%s\t{" % ch_pat)
+            if rng.chance(35):
+                # a string literal (or character constant) continued over lines: the spliced lines are lines of the input
+                nn = rng.rng(1, 2)
+                emit("        { const char *spliced = \"p\\")
+                for _ in range(nn - 1):
+                    emit("q\\")
+                emit("r\"; (void) spliced; }")
             for _ in range(rng.rng(1, 3)):
                 kk, st = rec_stmt("action-multiline" + ("-after-bar" if barred else ""))
                 put(kk, "        " + st)
@@ -162,7 +206,9 @@ def build_spec(rng, backend, noline_opt, no_reject=False, risky=False):
                     emit("")
             emit("\t}")
         elif style == "percent":
-            emit("%s\t%%{" % ch)
+            for l in pre:
+                emit(l)
+            emit("%s\t%%{" % ch_pat)
             kk, st = rec_stmt("action-percent-brace" + ("-after-bar" if barred else ""))
             put(kk, "        " + st)
             emit("\t%}")
